@@ -20,6 +20,8 @@ pub enum Mode {
     Indexes,
     Restart,
     Dump,
+    /// C16: in-memory indexes / spilled by memory budget / disk-backed at creation (simulated disk)
+    Backend,
 }
 
 pub struct Twin {
@@ -32,6 +34,7 @@ pub struct Twin {
     since_restart: usize,
     dir: std::path::PathBuf,
     files: u64,
+    disks: Vec<crate::simdisk::SimDisk>,
 }
 
 impl Drop for Twin {
@@ -60,7 +63,7 @@ impl Twin {
         for (i, s) in self.suts.iter().enumerate().skip(1) {
             let b = snapshot(s, false);
             cx.eval(what);
-            if self.mode == Mode::Indexes {
+            if matches!(self.mode, Mode::Indexes | Mode::Backend) {
                 if a.tables != b.tables {
                     let (x, y) = (Snap { tables: a.tables.clone(), ..Default::default() }, Snap { tables: b.tables.clone(), ..Default::default() });
                     return Some(format!("twin 0 vs twin {}: {}", i, x.diff(&y)));
@@ -141,11 +144,30 @@ impl Scenario for Twin {
             "C02" => Mode::Indexes,
             "C18" => Mode::Restart,
             "C19" => Mode::Dump,
+            "C16" => Mode::Backend,
             other => panic!("twin scenario does not serve {}", other),
+        };
+        let mut disks = Vec::new();
+        let suts = if mode == Mode::Backend {
+            use vibesql_storage::database::{DatabaseConfig, SpillPolicy};
+            // twin 1: tiny memory budget -> indexes spill to the simulated disk
+            let budget = [1usize, 64, 600, 4096][(sw.domain % 4) as usize];
+            let cfg = DatabaseConfig { memory_budget: budget, disk_budget: usize::MAX / 2, spill_policy: SpillPolicy::SpillToDisk, sql_mode: vibesql_types::SqlMode::default() };
+            let d1 = crate::simdisk::SimDisk::new();
+            let mut b = Database::with_config(cfg);
+            b.verif_set_index_storage(d1.as_backend());
+            // twin 2: disk-backed from CREATE INDEX on (guarded hook H2)
+            let d2 = crate::simdisk::SimDisk::new();
+            let mut c = Database::new();
+            c.verif_set_index_storage(d2.as_backend());
+            disks = vec![d1, d2];
+            vec![Sut::new(), Sut::from_db(b), Sut::from_db(c)]
+        } else {
+            vec![Sut::new(), Sut::new()]
         };
         Twin {
             mode,
-            suts: vec![Sut::new(), Sut::new()],
+            suts,
             world: World::default(),
             sw: sw.clone(),
             setup: Vec::new(),
@@ -153,6 +175,7 @@ impl Scenario for Twin {
             since_restart: 0,
             dir: run_dir(),
             files: 0,
+            disks,
         }
     }
 
@@ -178,7 +201,7 @@ impl Scenario for Twin {
         }
         let def = self.world.tables[rng.pick(&names)].clone();
         let o = PredOpts { truthy: false, mixed_numeric: !sw.guard("no_mixed_numeric_literals"), allow_or_not: true };
-        let restart_w = if self.mode == Mode::Indexes { 0 } else if self.since_restart > 3 { 6 } else { 1 };
+        let restart_w = if matches!(self.mode, Mode::Indexes | Mode::Backend) { 0 } else if self.since_restart > 3 { 6 } else { 1 };
         let weights = [sw.w_insert, sw.w_update, sw.w_delete, sw.w_truncate, if sw.with_indexes { sw.w_index } else { 0 }, if sw.with_analyze { 1 } else { 0 }, restart_w];
         let op = match rng.weighted(&weights) {
             0 => gen_insert(rng, &sw, &self.suts[0], &def, None),
@@ -218,6 +241,7 @@ impl Scenario for Twin {
 
     fn step(&mut self, op: &Op, cx: &mut Ctx) -> Step {
         let (oracle_state, oracle_probe, oracle_accept) = match self.mode {
+            Mode::Backend => ("c16.state", "c16.probe", "c16.accept"),
             Mode::Indexes => ("c02.state", "c02.probe", "c02.accept"),
             Mode::Restart => ("c18.state", "c18.probe", "c18.accept"),
             Mode::Dump => ("c19.state", "c19.probe", "c19.accept"),
@@ -318,11 +342,26 @@ impl Scenario for Twin {
                     // Indexes: a UNIQUE index may legitimately reject what the index-free twin accepts.
                     // Restart/Dump: constraints are not among the things C18/C19 promise to survive.
                     // Keep the twins in the same state by not applying the statement to the others.
-                    return Step::Continue;
+                    if self.mode != Mode::Backend {
+                        return Step::Continue;
+                    }
                 }
                 for i in 1..self.suts.len() {
                     let pre = table_snap(&self.suts[i], op.table.as_deref().unwrap_or(""));
+                    if self.mode == Mode::Backend && i == 2 {
+                        vibesql_types::verif::set_force_disk_backed(true);
+                    }
                     let o = self.suts[i].exec(&op.sql);
+                    vibesql_types::verif::set_force_disk_backed(false);
+                    if self.mode == Mode::Backend && op.kind == Kind::CreateIndex && o.is_ok() {
+                        if let Some(ix) = &op.idx {
+                            match self.suts[i].db.get_index_data(&ix.name) {
+                                Some(vibesql_storage::IndexData::DiskBacked { .. }) => cx.reach(&format!("twin{}_index_disk_backed", i)),
+                                Some(_) => cx.reach(&format!("twin{}_index_in_memory", i)),
+                                None => {}
+                            }
+                        }
+                    }
                     if o.is_panic() {
                         return Step::EndForeign("panic".into());
                     }
@@ -331,7 +370,7 @@ impl Scenario for Twin {
                     }
                     cx.eval(oracle_accept);
                     if o.is_ok() != out0.is_ok() {
-                        if self.mode != Mode::Indexes {
+                        if !matches!(self.mode, Mode::Indexes | Mode::Backend) {
                             // the reloaded twin refuses what the reference accepts: not a promise of
                             // C18/C19 (e.g. a constraint restored more strictly); states would diverge
                             return Step::EndForeign("reloaded_twin_refused_statement".into());
